@@ -49,11 +49,15 @@ def types(draw, max_numel=12, depth=2, allow_zero=False, atoms=(1, 2, 2, 3, 3, 4
             if n > rem: t = ['atom', 1]; n = 1
             subs.append(t); rem //= n
         return ['prod', subs]
+    # a sum has at least two summands (a one-summand sum "0 + X + 0" is never built by the library itself
+    # and its size-1 instance confuses product unification; not generated -- see DESIGN.md, C06 guards)
+    if max_numel < 2:
+        return ['atom', 1]
+    k = min(k, max_numel)
     rem = max_numel
     for i in range(k):
-        if rem < 1: break
         t = draw(types(max_numel=max(1, rem - (k - 1 - i)), depth=depth - 1, atoms=atoms))
-        if numel(t) > rem: t = ['atom', 1]
+        if numel(t) > rem - (k - 1 - i) or numel(t) < 1: t = ['atom', 1]
         subs.append(t); rem -= numel(t)
     return ['sum', subs]
 
